@@ -243,6 +243,16 @@ def gen_spec(rng, **over):
                                       'cd': rng.choice([0.75, 0.6, 1.0]), 'start': st, 'end': en})
     for p in spec['pipes']:
         p.pop('tree', None)
+    # side stream seeded by the content drawn so far (the main stream, and with it the rest of the corpus, stays what it was):
+    # any second of the day as start clock time, the noon and midnight hours in particular; and
+    # options.time.pattern_interpolation (WNTRSimulator only): multipliers move linearly inside a pattern step
+    import json as _json
+    import zlib as _zlib
+    r3 = _random.Random(_zlib.crc32(_json.dumps(spec, sort_keys=True, default=str).encode()))
+    if opt['start_clocktime'] and r3.random() < 0.5:
+        opt['start_clocktime'] = r3.choice([12 * 3600, 12 * 3600 + 1800, 12 * 3600 + 3599, 1800, 59, 11 * 3600 + 3540, 23 * 3600 + 3599,
+                                            r3.randrange(0, 86400), 60 * r3.randrange(0, 1440)])
+    opt['pattern_interpolation'] = r3.random() < 0.12
     return spec
 
 
@@ -323,6 +333,7 @@ def build(spec, wntr=None, reset=True):
     wn.options.time.rule_timestep = o['rule_timestep']
     wn.options.time.pattern_start = o['pattern_start']
     wn.options.time.start_clocktime = o['start_clocktime']
+    wn.options.time.pattern_interpolation = bool(o.get('pattern_interpolation', False))
     wn.options.time.quality_timestep = min(300, o['hydraulic_timestep'])
     wn.options.hydraulic.demand_multiplier = o['demand_multiplier']
     wn.options.hydraulic.demand_model = o['demand_model']
